@@ -1,5 +1,6 @@
 ----------------------------- MODULE MC_export -----------------------------
 (* Same state space; every Attempt transition and the intact directories are printed as JSON for the driver. *)
 EXTENDS ModelInit
+AllIntact == <<IntactOf(1), IntactOf(2), IntactOf(3), IntactOf(4)>>
 ASSUME ExportModels
 =============================================================================
